@@ -223,6 +223,10 @@ def convention_jmc_to_mc(
         raise JMCSyntaxException("Name started with '.'", token, tokenizer)
     if string.endswith("."):
         raise JMCSyntaxException("Name ended with '.'", token, tokenizer)
+    if ".." in string:
+        raise JMCSyntaxException(
+            "Name contains an empty segment ('..')", token, tokenizer
+        )
     if is_make_lower:
         string = string.lower()
 
